@@ -149,6 +149,18 @@ def step (σ : St) (toks : List String) : St × String :=
       | none => (σ, "err-bootstrap")
       | some db => ({ σ with db := db, st := some st' }, s!"ok base={st.lastBlockHeight}")
     | none => (σ, "bad-op")
+  | ["rollback"] =>
+    match σ.st with
+    | some st =>
+      match rollback σ.db st with
+      | .ok db st' => ({ σ with db := db, st := some st' },
+          s!"ok h={st'.lastBlockHeight} lhc={st'.lhvc} cur=" ++ showSet st'.validators ++ " next=" ++ showSet st'.nextValidators)
+      | .errNoBlock => (σ, "err-noblock")
+      | .errLoad => (σ, "err-load")
+      | .errParams => (σ, "err-params")
+      | .errSave => (σ, "err-save")
+      | .panic => (σ, "panic")
+    | none => (σ, "bad-op")
   | "block" :: rest =>
     match σ.st, (kv rest "ch").bind (parseVals false) with
     | some st, some ch =>
